@@ -413,7 +413,7 @@ func (l *ListChooser) Choose(n, cont int) int {
 type DFS struct {
 	Fixed      []int // pinned leading choices (for sharding a search by its first decisions)
 	Invalid    bool  // the pinned prefix does not exist in this run (choice >= width)
-	MaxPreempt int // <0: unbounded
+	MaxPreempt int   // <0: unbounded
 	prefix     []int
 	widths     []int
 	pos        int
